@@ -18,6 +18,7 @@ RULE = ("one case = one interconnect (shared / crossbar / point-to-point, 1..3 m
         "evaluated every cycle. Non-trivial = >= 2 masters contended (some request waited for another owner) or >= 10 completed "
         "cycles on a single master; distinct = distinct case digests")
 ASSUMPTIONS = ["migen tracer shim (names only)", "masters never abort a pending stb (legal Wishbone masters)",
+               "slaves signal an error the way LiteX's own Wishbone cores do: err raised together with ack",
                "slaves have >= 1 wait state (registered ack), the documented requirement of register=True",
                "unmapped addresses are only issued where a timeout is configured (InterconnectShared)"]
 FLOORS = {"quick": {"master_cycles_completed": 15000, "paired_with_slave": 14000, "contended_waits": 1500, "grant_changes": 1500,
@@ -170,7 +171,7 @@ def run_case(case):
         def tagger(slv, adr, si=si):
             return (si << 28) | ((len(slv.log) & 0xfff) << 16) | (adr & 0xffff)
         sags.append(bench.add(WBSlave(s, rng, "s%d" % si, lat=rng.choice([(0, 0), (0, 2), (0, 6), (3, 3)]),
-                                      err_p=rng.choice([0, 0, 0.15]), tagger=tagger)))
+                                      err_p=rng.choice([0, 0, 0.15]), tagger=tagger, err_with_ack=True)))
     gms = [bench.add(GrantMonitor(a, "arb%d" % i)) for i, a in enumerate(arbs)]
     dm = bench.add(DecodeMonitor(slaves, regs))
     ok = bench.run()
@@ -207,7 +208,7 @@ def run_case(case):
             paired += 1
             if (se["adr"], se["we"], se["sel"]) != (e["adr"], e["we"], e["sel"]) or (e["we"] and se["dat_w"] != e["dat_w"]):
                 errs.append({"kind": "cycle-altered-on-the-way", "master": mi, "op": e, "slave_saw": se})
-            elif e["err"] != se["err"] or e["ack"] != (0 if se["err"] else 1):
+            elif e["err"] != se["err"] or e["ack"] != 1:
                 errs.append({"kind": "termination-kind-differs", "master": mi, "op": e, "slave_gave": se})
             elif not e["we"] and not e["err"] and e["dat_r"] != se["dat_r"]:
                 errs.append({"kind": "read-data-from-wrong-source", "master": mi, "op": e, "slave_gave": se})
